@@ -374,6 +374,7 @@ func (r *run) client(st *cstate) {
 				return
 			}
 			c = &Conn{Idx: len(r.h.Conns), Client: st.idx, nc: nc, Op: op}
+			c.upS.Lenient = true
 			nc.SetCaps(r.sc.Knobs.LinkCap, r.sc.Knobs.LinkCap)
 			nc.TapOut(r.tap(c, true))
 			nc.TapIn(r.tap(c, false))
